@@ -14,7 +14,8 @@ from vf.checks.c01 import build_inputs  # noqa: E402
 
 ID = "C03"
 LEVEL = "exploration"
-RULE = ("three grammar families: (1) random grammars with the left-recursion-avoiding bias on and off; "
+RULE = ('[later additions: symbols without alternatives; token-free cycles through 40-4000 distinct symbols and the same chains broken by a token; one productions description with a sequence template given to two parsers; an optional symbol that stands twice in the prefix hiding a recursion] '
+        "three grammar families: (1) random grammars with the left-recursion-avoiding bias on and off; "
         "(2) prefix-group grammars; (3) targeted: a cycle X -> N1..Nk X hidden behind k=1..3 nullable "
         "symbols, generated under EVERY relative alphabetical order of the names of X and N1..Nk "
         "((k+1)! orders, enumerated), start symbol inside or outside the cycle, dict order shuffled; (4) the mirror "
